@@ -79,6 +79,21 @@ CLAIMED = {
         "set must equal the predicted set exactly (multiplicity >= 1 allowed).",
         "Root + 3 nodes; subjects of other behaviours sharing the instance are filtered by id prefix.",
         "6/C06"),
+    "C07": (
+        "TLA+ spec Manager.tla model-checked for Quiesce/StopStopsAll under fairness; event logs recorded from the real client "
+        "manager (instrumented client via client.NewManager) validated by TLC against Trace_Manager.tla",
+        "The manager's control loop is specified action by action and checked for safety and liveness; real schedules are sampled "
+        "by the Go runtime, so the binding is trace validation: every recorded behaviour must be one the specification allows, "
+        "including the state at every quiescence point.",
+        "Schedules are seeded samples; the periodic rescan is accelerated by a build-tag hook; 2 managed nodes, 3 parents.",
+        "6/C07"),
+    "C08": (
+        "TLA+ trace spec Trace_Manager.tla (owed-delivery queues per running client); callbacks recorded from the real manager "
+        "validated by TLC",
+        "Delivery order, completeness and the echo filter are checked on recorded callbacks of an instrumented client for batches "
+        "with every origin class on own node, child, peer and unrelated nodes, including a mirrored client node.",
+        "Batches are written to a quiescent system; optional deliveries (where C08 is silent) may or may not occur.",
+        "6/C08"),
     "C09": (
         "TLA+ spec Auth.tla: gate table (Status401) and login eligibility / listing over placement histories checked by TLC; "
         "the full request product and TLC-generated histories replayed against a real instance over HTTP and NATS",
